@@ -31,7 +31,16 @@ def run(c):
         "callbacks (no I/O errors except injected WriteAt failures); one call = one critical section (locks trusted)",
     ]
     binary = gen(c)
-    c.prove("SH.Props.C21", extra_files=["SH/Model/Chunked.lean", "SH/Model/MapCache.lean"])
+    lemma_files = ["SH/Lemmas/C21Closed.lean", "SH/Lemmas/C21Order.lean", "SH/Lemmas/C21Writer.lean"]
+    c.prove("SH.Lemmas.C21Base", extra_files=["SH/Model/Chunked.lean", "SH/Model/MapCache.lean"])
+    if c.tier == "thorough":
+        # every theorem of the second-round developments audited individually
+        c.prove("SH.Lemmas.C21Closed")
+        c.prove("SH.Lemmas.C21Order")
+        c.prove("SH.Lemmas.C21Writer")
+    # the headline theorems: building them builds all four developments; their `#print axioms` is transitive over
+    # everything they use; the lemma sources are scanned for forbidden constructs
+    c.prove("SH.Props.C21", extra_files=lemma_files)
     drv = c.driver(DRIVER)
     if binary and drv:
         rc, out = c.go_run(binary, [f"-n={c.n(300, 4000)}"], timeout=1500)
@@ -53,26 +62,33 @@ META = {
     "level": "proof",
     "technique": "Lean 4 theorems over executable models of the chunk file format and of the mapping cache (induction over chunk lists and over op sequences; "
                  "hash in reduction form) + op-by-op differential correspondence with the real ChunkedStorage2 / MappingsCache incl. exhaustive truncation and bit-flip slices",
-    "text": ("Kernel-checked theorems, for every hash function H with 16-byte results: a chunk file written by the writer reads back as exactly the "
-             "saved chunks (read_write_roundtrip); cut at ANY offset it yields a prefix of the saved chunks, all intact, and a clean end only at a chunk "
-             "boundary (truncated_gives_prefix); any corruption of chunk j — in particular any single changed byte, hence every bit flip — yields exactly the "
-             "first j chunks plus an error unless H maps the damaged bytes to the stored hash (corrupt_detected / byte_change_detected, reduction form, "
-             "accepts_iff). For the mapping cache, by induction over ALL sequences of add/get/TTL-evict/resize/stats/save/restart ops, all eviction "
-             "candidate lists, visit orders, write orders and all damage functions applied to the file: one entry per string and sumSize = Σ element "
-             "sizes, sumTS = Σ access times (accounting_exact, sums_never_negative); AddValues never grows the cache past max(maxSize, size before) and "
-             "a cache within its limit stays within it (addValues_size_bound, size_never_exceeds); every cached / returned value is non-marker, for a "
-             "non-empty string, and was given to AddValues for exactly that string (cache_values_are_added, get_returns_added_value); Save writes a "
-             "well-formed encoding of the map in any enumeration order (save_writes_encoding), a restart from it loads the same mapping and sums "
-             "(save_then_reload_same), a restart from any truncation loads only whole saved entries (load_truncated, save_then_truncated_reload_subset). "
-             "The models are tied to the code by replaying every generated op on the real ChunkedStorage2 / MappingsCache and on the compiled Lean model "
-             "and diffing state digests after every op, incl. every truncation offset and every single-bit flip of small saved files (thorough tier)."),
-    "note": ("Trusted: Lean kernel; the correspondence on generated op sequences; xxh3 as an uninterpreted function (corruption detection is proved only in reduction "
-             "form: it fails exactly on a HashCoincidence); Go map order, sort tie order and Save order are observed inputs whose legality the model checks "
-             "(legalCands/legalRemoved are executable predicates, not proved complete); locks (one call = one step), accessTSGran = 1, no int64 overflow, items "
-             "< ChunkSize/2. The value theorem takes the hypothesis ReloadsGood for restarts; it is discharged for restarts from a just-saved file cut anywhere "
-             "(restart_after_save_good) and, via corrupt_detected, for corrupted files modulo a hash coincidence, but the composition over arbitrary interleavings of "
-             "saves and repeated damaged restarts is not stated as one closed theorem. load does not enforce maxSize (a file saved under a larger limit is loaded whole; "
-             "the cache then shrinks by the 1/1024 rule) — the size theorem is therefore about AddValues and constant limits. Defect found and fixed in /repo "
-             "(9b6d1e49): the same new string twice in one AddValues call double-counted sumSize/sumTS; kept as Variant.dupAdd with theorem dupAdd_breaks_accounting."),
+    "text": ("Kernel-checked theorems, for every hash function H with 16-byte results. CHUNK FILES: a written file reads back as exactly the saved "
+             "chunks (read_write_roundtrip); ANY byte string not longer than the saved file — cut at any offset, any bytes changed, any combination — "
+             "reads as a prefix of the saved chunks unless those very bytes pass the hash check on something that is not the saved chunk "
+             "(damaged_prefix_or_passes, tight reduction form PassesFrom; a pure cut never passes: truncation_never_passes). WRITE SIDE: over all lists "
+             "of reset/start/FinishItem/finishChunk/FinishWriteChunk calls with arbitrarily injected WriteAt failures the storage object refines a "
+             "list-level writer: the bytes before the write offset are exactly the encoding of the accepted chunks, the sticky writeErr discards until "
+             "reset, an error-free FinishWriteChunk leaves exactly the encoding, a reader sees all accepted chunks first (writer_refines, "
+             "arun_err_keeps_done, fin_ok_whole_file, reader_sees_accepted_chunks). CACHE, CLOSED THEOREM (closed_run): from an empty cache, for ANY "
+             "interleaving of AddValues/GetValue/RemoveByTTL/SetSizeTTL/Stats/Save and restarts from files damaged in any non-lengthening way, any "
+             "eviction candidates / visit orders / write orders: accounting exact (one entry per string, sumSize = sum of element sizes, sumTS = sum of "
+             "access times, never negative), every cached or returned value is non-marker, for a non-empty string and was given to AddValues for exactly "
+             "that string (closed_get), the file on disk is a no-longer image of a state this cache saved; AddValues never grows the cache past "
+             "max(maxSize, size before) (closed_size). Hypotheses: only the ranges of the Go types, Save enumerates the map, and no restart reads damaged "
+             "bytes that pass the hash check — which is a theorem for cut files, so closed_run_truncations has no hash hypothesis at all. Save/restart: "
+             "save_writes_encoding, save_then_reload_same. GO MAP ORDER IS TREATED EXACTLY: the loops of RemoveByTTL and AddValues over an enumeration have "
+             "closed forms (ttlRemoved, collect_eq) and the driver's acceptance predicates are proved sound AND complete against them "
+             "(legalRemoved_sound/_complete, legalCount_sound/_complete/_exact, legalCount_perm). The models are tied to the code by replaying every "
+             "generated op on the real ChunkedStorage2 / MappingsCache and on the compiled Lean model and diffing state digests after every op, incl. "
+             "every truncation offset and every single-bit flip of small saved files (thorough tier)."),
+    "note": ("Trusted: Lean kernel; the correspondence on generated op sequences; xxh3 as an uninterpreted function (detection of changed bytes is proved in "
+             "reduction form only: it fails exactly when the damaged file itself PassesFrom; the first-round escape clause HashCoincidence was too weak — "
+             "hashCoincidence_trivial shows any H satisfies it — and is superseded, the old theorems are kept); locks (one call = one step), "
+             "accessTSGran = 1, no int64 overflow, items < ChunkSize/2 (strings <= 500000 bytes in the closed theorem), slice-storage callbacks. Remaining "
+             "partial: damage that makes the file LONGER (appending bytes) is outside the closed theorem (a forged, correctly hashed extra chunk would be "
+             "loaded — not a corruption model); the sort of the eviction candidates by access time is an observed input checked by sortedCands, not "
+             "derived; the reader half of ChunkedStorage2 interleaved with writes (ReadNext after partial writes) is covered by the correspondence only; "
+             "load does not enforce maxSize, so the size theorem is about AddValues and constant limits. Defect found and fixed in /repo (9b6d1e49): the "
+             "same new string twice in one AddValues call double-counted sumSize/sumTS; kept as Variant.dupAdd with theorem dupAdd_breaks_accounting."),
     "design_ref": "DESIGN.md §6 C21",
 }
